@@ -73,7 +73,9 @@ def _gen_step(rng, sim, removed_pool, failing, tags):
         groups = [(n, r) for n, r in named if r.rt in ("O", "U")]
         pool = [(n, r) for n, r in named if r.rt in ("S", "E")]
         if groups and pool:
-            n, r = rng.choice(groups)
+            listed = {m for x in sim.recs if x.rt in ("O", "U") for m, role in T.mentions(x)}
+            inner = [(n, r) for n, r in groups if n in listed]
+            n, r = rng.choice(inner if (inner and rng.random() < 0.7) else groups)
             items = [rng.choice(pool)[0] for _ in range(rng.randint(1, 2))]
             if n not in items:
                 txt = " ".join(i + (rng.choice("+-") if r.rt == "O" else "") for i in items)
@@ -96,6 +98,12 @@ def _gen_step(rng, sim, removed_pool, failing, tags):
         return {"op": "add", "line": l, "as": rng.choice(["str", "line"])}
     if k < 0.80 and named:
         n, r = rng.choice(named)
+        if rng.random() < 0.3:
+            # a record which other records mention (its identifier is written in several places)
+            listed = {m for x in sim.recs for m, role in T.mentions(x)}
+            cand = [(a, b) for a, b in named if a in listed and b.rt != "S"]
+            if cand:
+                n, r = rng.choice(cand)
         fresh = [f for f in FRESH if f not in sim.names()]
         if rng.random() < 0.3 and r.rt not in ("L", "C"):
             # onto an identifier which is mentioned but not defined (the renamed line takes the
@@ -644,6 +652,19 @@ def run_history(case, ctx, compare_every=True, after_step=None):
             if ph is not None and ph.virtual and ph.record_type not in ("\n", st.get("rt")):
                 ctx.count("steps_skipped_typed_placeholder")
                 continue
+        if verdict == "ok" and st["op"] == "add":
+            # (the same for a line added under an identifier whose placeholder still has the type
+            #  given by a line which has been removed since)
+            try:
+                nrec = S.parse_line(st["line"], version)
+                nrec.version = nrec.version or version
+                nid = T.ident(nrec)
+                ph = g.line(nid) if nid is not None else None
+            except Exception:
+                ph = None
+            if ph is not None and ph.virtual and ph.record_type not in ("\n", nrec.rt):
+                ctx.count("steps_skipped_typed_placeholder")
+                continue
         expect_fail = verdict in ("dup", "fail")
         before = O.obs(g) if expect_fail else None
         out = do_step(ctx, g, st, version, vlevel)
@@ -730,7 +751,11 @@ def run_history(case, ctx, compare_every=True, after_step=None):
                 ctx.violation("graph-differs-from-fresh-parse/%s/%s/%s" % (st["op"], st.get("rt") or "", _what_changed(d)),
                               "after step %d %r (fresh parse vs mutated):\n  %s" % (si, st, "\n  ".join(d[:4])),
                               prop="C05")
-                return shape
+                if ctx.prop == "C05":
+                    return shape
+                # (a bystander here: the written content still follows the model, so the history goes
+                #  on and the property under check is judged by its own oracle)
+                compare_every = False
     return shape
 
 
